@@ -129,8 +129,16 @@ func execDemux(e *Env, pp any) {
 		for i := 0; i < nw; i++ {
 			e.Pt("conn.write")
 			pl := fmt.Sprintf("w-%d-%d", cr.idx, i)
-			err := rw.Write(rctx, &Rpc{Id: uint64(5000 + cr.idx*10 + i), Header: &goatorepo.RequestHeader{Method: "/raw/W", Source: "demuxed", Destination: cr.key},
+			// every other write uses a context of its own that ends as soon as the
+			// Write has returned (a per-call timeout with defer cancel()): an envelope
+			// whose Write reported success is on its way regardless
+			wctx, wcancel := rctx, context.CancelFunc(func() {})
+			if i%2 == 1 {
+				wctx, wcancel = context.WithCancel(rctx)
+			}
+			err := rw.Write(wctx, &Rpc{Id: uint64(5000 + cr.idx*10 + i), Header: &goatorepo.RequestHeader{Method: "/raw/W", Source: "demuxed", Destination: cr.key},
 				Body: &goatorepo.Body{Data: []byte(pl)}})
+			wcancel()
 			histMu.Lock()
 			if err != nil {
 				cr.writeErr = err
